@@ -683,7 +683,21 @@ impl Check for C13 {
     fn generate(&self, g: &mut Xo, tier: Tier, run: u64) -> Sc {
         let exps = if tier == Tier::Quick { EXPERIMENTS_QUICK } else { EXPERIMENTS_THOROUGH };
         if run < exps {
-            let (api, shape, weights) = gen_case(g, true);
+            // the first experiments are FIXED (the same under every seed): totals that are a large, non-power-of-two
+            // fraction of the 64-bit (dynamic lists: small weights are scaled by 2^60 when built) resp. 32-bit range,
+            // where a biased reduction of a random word is visible
+            let fixed: [(Api, Shape, Vec<u32>); 6] = [
+                (Api::Dyn, Shape::Leaf(0), vec![1, 2]),
+                (Api::Dyn, Shape::Leaf(0), vec![5, 5, 5]),
+                (Api::Dyn, Shape::Leaf(0), vec![2, 1, 0, 0, 3]),
+                (Api::Tree, left_chain(2), vec![1 << 30, 1 << 31]),
+                (Api::Chain, Shape::Leaf(0), vec![1 << 31, 1 << 30, 1 << 29]),
+                (Api::Tree, right_chain(3), vec![3 << 29, 0, 5 << 28]),
+            ];
+            let (api, shape, weights) = match fixed.get(run as usize) {
+                Some(f) => f.clone(),
+                None => gen_case(g, true),
+            };
             let warm_after = if api == Api::Dyn && weights.len() >= 2 && run % 2 == 1 { Some(g.urange(1, weights.len() - 1)) } else { None };
             return Sc::Dist {
                 api,
